@@ -295,7 +295,7 @@ def execute(plan):
 
 def _proteins_changed(run):
     for h, pr in run.prot.items():
-        d = N.same(pr['nf'], N.norm_ann(pr['p']))
+        d = N.same_strict(pr['nf'], N.norm_ann(pr['p']))
         if d is not None:
             return f"{h}: {d}"
     return None
@@ -420,7 +420,7 @@ def _do_lazy(run, ev_i, ev):
 def _check_kept(run, ev_i, lz):
     for (k0, obj, nf0) in lz.get('kept', []):
         run.out.oracle_checks += 1
-        d = N.same(nf0, N.norm_ann(obj))
+        d = N.same_strict(nf0, N.norm_ann(obj))
         if d is not None:
             lz['kept'] = []
             return run.violation('STABLE', lz['args']['fn'], 'kept-item',
